@@ -11,7 +11,7 @@ import (
 	"verif/internal/ref"
 )
 
-var feats = gen.Features{NestedDisj: true, TopDisj: true, Call: true, Lib: true, Strings: true, Deep: true}
+var feats = gen.Features{NestedDisj: true, TopDisj: true, Call: true, Lib: true, Strings: true, Deep: true, Flags: true}
 
 func check(p *gen.Program) error {
 	opts := diff.DefaultOpts()
@@ -47,6 +47,9 @@ func TestProp(t *testing.T) {
 		opts.PrefixOnBudget = true // cut-free, side-effect-free programs: the answers found within the budget are the first answers
 		o := diff.Run(p, opts)
 		r.Label("sampled")
+		if p.DQ != "" || p.UnknownFail {
+			r.Label("with_non_default_flags")
+		}
 		if p.Deep {
 			r.Label("with_a_deep_recursion")
 		}
